@@ -1,2 +1,45 @@
 //! verification hooks for engine `ovl` (cfg(xray_verif) only)
+//!
+//! `list_overloads`: the candidates `resolve_overload` would iterate over for a name at the root scope, for
+//! given argument types, in the order it would see them: static overloads with their spec, dynamic functions
+//! with the spec their factory produces for these argument types (or `dfail` when the factory refuses).
 #![allow(unreachable_pub, dead_code, unused_imports)]
+
+use super::ty::{parse_types, show_type};
+use crate::compilation_scope::{CompilationItem, OverloadWithForwardReq};
+use crate::root_compilation_scope::RootCompilationScope;
+use crate::xtype::XType;
+
+pub fn list_overloads<W, R, T>(
+    scope: &mut RootCompilationScope<W, R, T>,
+    name: &str,
+    arg_toks: &[&str],
+) -> Result<Vec<String>, String> {
+    let args = parse_types(scope, arg_toks)?;
+    let id = scope.interner.borrow_mut().get_or_intern(name);
+    let Some(CompilationItem::Overload(overloads)) = scope.scope.get_item(&id) else {
+        return Ok(vec![]);
+    };
+    let mut out = Vec::new();
+    for (_height, ov) in overloads {
+        match ov {
+            OverloadWithForwardReq::Static { spec, .. } => {
+                let flag = if spec.short_circuit_overloads { "S" } else { "s" };
+                out.push(format!("{flag} {}", show_type(scope, &XType::XFunc(spec))));
+            }
+            OverloadWithForwardReq::Factory(_desc, dyn_func) => {
+                match dyn_func(None, Some(&args), &mut scope.scope, None) {
+                    Ok(produced) => {
+                        let flag = if produced.spec.short_circuit_overloads { "D" } else { "d" };
+                        out.push(format!(
+                            "{flag} {}",
+                            show_type(scope, &XType::XFunc(produced.spec))
+                        ));
+                    }
+                    Err(_) => out.push("dfail".to_string()),
+                }
+            }
+        }
+    }
+    Ok(out)
+}
